@@ -63,7 +63,7 @@ fn run_config(db: &GrafeoDB, stale: &GrafeoDB, logical: &LogicalPlan, flags: u8,
 }
 
 /// Hand-written queries with three relations (join reordering needs at least three).
-fn join_queries() -> Vec<(&'static str, String)> {
+fn join_queries() -> Vec<(String, String)> {
     let mut v = vec![];
     for (name, text) in [
         ("three-comma-shared", "MATCH (a:A)-[:K]->(b), (b)-[:K]->(c), (c)-[:L]->(d) RETURN a.p, b.p, c.p, d.p"),
@@ -74,7 +74,7 @@ fn join_queries() -> Vec<(&'static str, String)> {
         ("three-comma-count", "MATCH (a:A), (b)-[:K]->(c), (d:B) RETURN COUNT(a)"),
         ("filter-or-across", "MATCH (a)-[:K]->(b), (c:A) WHERE a.p = 1 OR c.p = 2 RETURN a.p, b.p, c.p"),
     ] {
-        v.push((name, text.to_string()));
+        v.push((name.to_string(), text.to_string()));
     }
     v
 }
@@ -84,7 +84,7 @@ fn join_queries() -> Vec<(&'static str, String)> {
 /// match, aggregate, distinct, sort + limit / skip, unwind, sub-query): whether the filter may travel below that
 /// operator is exactly what the rewrite decides.  Windows sit on a total pre-order whose ties are filtered alike, so
 /// the answer of a correct plan is determined.
-fn shape_queries() -> Vec<(&'static str, String)> {
+fn shape_queries() -> Vec<(String, String)> {
     [
         ("with-fresh-alias", "MATCH (a)-[:K]->(b) WITH b AS c WHERE c.p = 1 RETURN c.p"),
         ("with-shadow-alias", "MATCH (a)-[:K]->(b) WITH b AS a WHERE a.p = 1 RETURN a.p, a.s"),
@@ -113,8 +113,64 @@ fn shape_queries() -> Vec<(&'static str, String)> {
         ("join-alias-side", "MATCH (a:A), (b:B) WITH a AS b, b AS a WHERE a.p = 2 RETURN a.p, b.p"),
     ]
     .into_iter()
-    .map(|(n, t)| (n, t.to_string()))
+    .map(|(n, t)| (n.to_string(), t.to_string()))
     .collect()
+}
+
+/// Generated family: every predicate template over two variable slots x every binding context in which the two slots
+/// are bound at different depths of the plan (the deeper one below an expand / the other side of a join / behind a
+/// projection alias / the optional side / a second MATCH).  Whether a predicate may sink below the operator that binds
+/// one of its variables depends on the free-variable analysis seeing that variable inside every expression form
+/// (CASE parts, lists, function arguments, sub-queries, IS NULL, IN), which is what the templates vary.
+fn predicate_context_queries() -> Vec<(String, String)> {
+    // {x} is bound lower (first / left), {y} higher (introduced by the operator the filter sits above)
+    let preds: [(&str, &str); 24] = [
+        ("eq", "{x}.p = {y}.p"),
+        ("lt", "{x}.p < {y}.p"),
+        ("sum", "{x}.p + {y}.p = 3"),
+        ("or", "{x}.p = 1 OR {y}.p = 2"),
+        ("and", "{x}.p = 1 AND {y}.p = 2"),
+        ("not", "NOT ({x}.p = {y}.p)"),
+        ("case-when-only-y", "CASE WHEN {y}.p > 1 THEN {x}.p ELSE 0 END = 1"),
+        ("case-when-only-y-lit", "CASE WHEN {y}.p = 2 THEN 1 ELSE 0 END = 1"),
+        ("case-simple-when-y", "CASE {x}.p WHEN {y}.p THEN 1 ELSE 0 END = 1"),
+        ("case-then-only-y", "CASE WHEN {x}.p = 1 THEN {y}.p ELSE 0 END > 0"),
+        ("case-else-only-y", "CASE WHEN {x}.p = 2 THEN 0 ELSE {y}.p END > 0"),
+        ("case-operand-only-y", "CASE {y}.p WHEN 2 THEN {x}.p ELSE 0 END = 1"),
+        ("exists-y", "EXISTS { MATCH ({y})-[:L]->(z) }"),
+        ("exists-y-inner-where-x", "EXISTS { MATCH ({y})-[:K]->(z) WHERE z.p = {x}.p }"),
+        ("x-and-exists-y", "{x}.p = 1 AND EXISTS { MATCH ({y})-[:K]->(z) }"),
+        ("not-exists-y", "NOT EXISTS { MATCH ({y})-[:L]->(z) }"),
+        ("in-list", "{y}.p IN [{x}.p, 5]"),
+        ("in-list-of-y", "{x}.p IN [{y}.p, 5]"),
+        ("is-null-y", "{x}.p = 1 AND {y}.s IS NULL"),
+        ("is-not-null-y", "{y}.s IS NOT NULL OR {x}.p = 2"),
+        ("coalesce", "coalesce({y}.s, {x}.s) = 'x'"),
+        ("abs", "abs({x}.p - {y}.p) = 1"),
+        ("id-cmp", "id({x}) < id({y})"),
+        ("labels", "{y}:A AND {x}.p = 1"),
+    ];
+    let ctxs: [(&str, &str); 9] = [
+        ("expand", "MATCH (a)-[:K]->(b) WHERE {P} RETURN a.p, b.p"),
+        ("two-hop", "MATCH (a)-[:K]->(m)-[:L]->(b) WHERE {P} RETURN a.p, m.p, b.p"),
+        ("varlen", "MATCH (a)-[:K*1..2]->(b) WHERE {P} RETURN a.p, b.p"),
+        ("comma-join", "MATCH (a:A), (b:B) WHERE {P} RETURN a.p, b.p"),
+        ("second-match", "MATCH (a:A), (t:B) MATCH (b) WHERE {P} RETURN a.p, t.p, b.p"),
+        ("second-match-expand", "MATCH (a:A) MATCH (b)-[:L]->(c) WHERE {P} RETURN a.p, b.p, c.p"),
+        ("with-alias", "MATCH (a)-[:K]->(m) WITH a, m AS b WHERE {P} RETURN a.p, b.p"),
+        ("optional", "MATCH (a) OPTIONAL MATCH (a)-[:L]->(b) WITH a, b WHERE {P} RETURN a.p, b.p"),
+        ("edge-expand", "MATCH (a)-[e:K]->(b)-[:L]->(c) WHERE {P} RETURN a.p, b.p, c.p"),
+    ];
+    let mut v = vec![];
+    for (cn, ct) in ctxs {
+        for (pn, pt) in preds {
+            for (dir, x, y) in [("xy", "a", "b"), ("yx", "b", "a")] {
+                let p = pt.replace("{x}", x).replace("{y}", y);
+                v.push((format!("ctx:{cn}/pred:{pn}/{dir}"), ct.replace("{P}", &p)));
+            }
+        }
+    }
+    v
 }
 
 struct Case<'a> {
@@ -217,6 +273,19 @@ fn judge(g: &QGraph, ids: &IdMap, db: &GrafeoDB, stale: &GrafeoDB, c: &Case) -> 
     (viols, outs.len() as u64, nonempty)
 }
 
+/// Signature fields of a hand-written / generated shape: `ctx:<c>/pred:<p>/<dir>` gives separate fields, so that a
+/// ledger entry can name the predicate form (the mechanism) independently of the context.
+fn shape_feats(name: &str) -> Vec<(String, String)> {
+    let mut f = vec![("pattern".to_string(), name.to_string())];
+    if let Some(rest) = name.strip_prefix("ctx:") {
+        let parts: Vec<&str> = rest.split('/').collect();
+        if parts.len() == 3 {
+            f = vec![("pattern".to_string(), "generated".to_string()), ("ctx".to_string(), parts[0].to_string()), ("pred".to_string(), parts[1].trim_start_matches("pred:").to_string()), ("dir".to_string(), parts[2].to_string())];
+        }
+    }
+    f
+}
+
 fn feats_of(q: &Query) -> Vec<(String, String)> {
     let f = q.features();
     ["pattern", "where", "agg", "distinct", "order_by", "window"].iter().filter_map(|k| f.get(k).map(|v| (k.to_string(), v.clone()))).collect()
@@ -250,7 +319,10 @@ fn run(args: vcore::Args) -> i32 {
     let queries = all_queries(depth);
     let mut joins = join_queries();
     joins.extend(shape_queries());
-    rep.rule = format!("every graph of {:?} (+ one dense 3-node graph) x every query of the core grammar up to weight {depth} and 7 hand-written 3-relation joins and 25 hand-written filter-above-operator shapes x {{GQL, Cypher}} x 2^3 optimizer switches x 3 statistics states; oracle: pairwise equal answers; distinct non-trivial = (graph, query, language) with a non-empty answer", space.to_json());
+    let generated = predicate_context_queries();
+    let n_generated = generated.len();
+    joins.extend(generated);
+    rep.rule = format!("every graph of {:?} (+ one dense 3-node graph) x every query of the core grammar up to weight {depth} and 7 hand-written 3-relation joins and 25 hand-written filter-above-operator shapes and {n_generated} generated (binding context x predicate template x variable order) shapes x {{GQL, Cypher}} x 2^3 optimizer switches x 3 statistics states; oracle: pairwise equal answers; distinct non-trivial = (graph, query, language) with a non-empty answer", space.to_json());
     let results = vcore::par_map(&graphs, vcore::cores(), |gi, g| {
         let (db, ids) = load(g);
         let stale = stale_db(g);
@@ -268,14 +340,14 @@ fn run(args: vcore::Args) -> i32 {
         }
         for (name, text) in &joins {
             for lang in [Lang::Gql, Lang::Cypher] {
-                cases.push(Case { lang, text: text.clone(), feats: vec![("pattern".to_string(), name.to_string())], q: None });
+                cases.push(Case { lang, text: text.clone(), feats: shape_feats(name), q: None });
             }
         }
         for (ci, c) in cases.iter().enumerate() {
             let (v, n, nonempty) = judge(g, &ids, &db, &stale, c);
             evals += n;
             if n > 0 && c.q.is_none() {
-                accepted.insert(format!("{}/{}", c.lang.name(), c.feats[0].1));
+                accepted.insert(format!("{}/{}", c.lang.name(), c.feats.iter().skip(if c.feats.len() > 1 { 1 } else { 0 }).map(|f| f.1.as_str()).collect::<Vec<_>>().join("/")));
             }
             if nonempty {
                 nontrivial.push(vcore::hash_of(&(gi, ci)));
